@@ -50,12 +50,14 @@ def errDuplicated : Err := ⟨"DuplicatedSection", []⟩
 
 /-! ## numerals: `<u32 as FromStr>` / `<usize as FromStr>` -/
 
+def stripPlus : List Char → List Char
+  | '+' :: r => r
+  | cs => cs
+
 /-- Rust's unsigned `from_str`: an optional `+`, at least one ASCII digit, nothing else
     (no `_`, no `-`), value below the type's bound.  (`String.toNat?` accepts `1_000`.) -/
 def parseUChars (bound : Nat) (cs : List Char) : Option Nat :=
-  let ds := match cs with
-    | '+' :: r => r
-    | _ => cs
+  let ds := stripPlus cs
   if ds.isEmpty || !ds.all Char.isDigit then none else
   let v := Nat.ofDigitChars 10 ds 0
   if v < bound then some v else none
